@@ -21,7 +21,7 @@ SUB = {'estimate': c01, 'coring': c05, 'md_wt': c06, 'md_paths': c06}
 
 
 def _applicable_forms(trajs):
-    forms = ['list_of_arrays', 'mixed_arrays', 'statetraj', 'narrow_arrays']
+    forms = ['list_of_arrays', 'mixed_arrays', 'statetraj', 'narrow_arrays', 'per_array_narrow']
     if all(len(t) > 0 for t in trajs):
         forms.append('list_of_lists')
     if len(trajs) == 1:
@@ -40,6 +40,9 @@ def cases(tier, rng, boost=1):
                forms=['narrow_arrays', 'list_of_lists', 'list_of_arrays'])
     yield dict(c01._mk([[-128, -2, 127, -2, -128, 127, 127, -2]], 1, src='corpus', cls='narrow_wide'), fn='estimate', relabel=None,
                forms=['narrow_arrays', 'list_of_arrays', 'list_of_lists'])
+    for trajs, form, tag in gen.special_sets(core.Rng(17)):
+        if form == 'per_array_narrow':
+            yield dict(c01._mk(trajs, 1, form=form, src='corpus', cls=tag), fn='estimate', relabel=None, forms=[form, 'list_of_arrays', 'list_of_lists'])
     n = {'quick': 150, 'thorough': 2000, 'search': 500}[tier] * boost
     for _ in range(n):
         ns = rng.randint(2, 6)
